@@ -13,10 +13,15 @@ use std::collections::BTreeMap;
 pub fn body_of(op: &ClientOp) -> Value {
     match op {
         ClientOp::Initialize { id, diag } => {
-            let caps = if *diag {
-                json!({"textDocument": {"publishDiagnostics": {"relatedInformation": false}}})
-            } else {
-                json!({})
+            // the capability that matters in several shapes a real client could send: the server
+            // must look at textDocument.publishDiagnostics itself, not at what surrounds it
+            let caps = match (*diag, id.rem_euclid(3)) {
+                (true, 0) => json!({"textDocument": {"publishDiagnostics": {"relatedInformation": false}}}),
+                (true, 1) => json!({"textDocument": {"publishDiagnostics": {}, "hover": {"contentFormat": ["plaintext"]}}, "workspace": {"applyEdit": true}}),
+                (true, _) => json!({"textDocument": {"synchronization": {"didSave": true}, "publishDiagnostics": {"versionSupport": true, "tagSupport": {"valueSet": [1, 2]}}}}),
+                (false, 0) => json!({}),
+                (false, 1) => json!({"textDocument": {"hover": {"contentFormat": ["plaintext"]}, "synchronization": {"didSave": true}}}),
+                (false, _) => json!({"textDocument": {}, "workspace": {"applyEdit": true}, "window": {"workDoneProgress": false}}),
             };
             json!({"jsonrpc":"2.0","id":id,"method":"initialize",
                    "params":{"processId":null,"rootUri":null,"capabilities":caps}})
